@@ -1,3 +1,4 @@
+\* pruning part with both loops repaired (proposed_fixes/c13-*.diff): PruneKeepsWindow must hold
 SPECIFICATION Spec
 CONSTANTS
   MaxH = 5
